@@ -44,7 +44,7 @@ import (
 // ---------------------------------------------------------------- cases
 
 type op struct {
-	Kind string `json:"kind"` // w a p r c s x G v k
+	Kind string `json:"kind"` // w a p r c s x f G v k
 	Name string `json:"name"`
 	N    int    `json:"n"`    // index for v, value for k
 	Form int    `json:"form"` // syntactic variant of the statement
@@ -237,6 +237,8 @@ func stmt(o op, id int, pc *progCtx) string {
 		return fmt.Sprintf(`r = system(%s); print "@%d:" r ":"`, e, id)
 	case "x":
 		return fmt.Sprintf(`r = close(%s); print "@%d:" r ":"`, e, id)
+	case "f":
+		return fmt.Sprintf(`r = fflush(%s); print "@%d:" r ":"`, e, id)
 	case "G":
 		if o.Form%2 == 0 {
 			return fmt.Sprintf(`x = ""; r = (getline x); print "@%d:" r ":" x`, id)
@@ -807,7 +809,7 @@ func modelCanon(k kase, answer string, opens []openRec) string {
 
 func opClass(kind string) string {
 	return map[string]string{"w": "print-to-file", "a": "print-append-file", "p": "print-to-command", "r": "getline-from-file",
-		"c": "command-to-getline", "s": "system", "x": "close", "G": "plain-getline-file-operand", "v": "argv-assign", "k": "argc-assign",
+		"c": "command-to-getline", "s": "system", "x": "close", "f": "fflush", "G": "plain-getline-file-operand", "v": "argv-assign", "k": "argc-assign",
 		"M": "main-loop-file-operand"}[kind]
 }
 
@@ -1057,6 +1059,10 @@ func genCases(o hx.Opts, r *hx.Rand) []kase {
 			add(kase{ShellOK: sh, Begin: []op{{Kind: "s", Name: n, Expr: nx()}}, Tag: "single"})
 		}
 	}
+	for _, n := range []string{"out1", "", "-", "c1", "/dev/stdout"} {
+		add(kase{ShellOK: true, Begin: []op{{Kind: "f", Name: n, Expr: nx()}}, Tag: "single"})
+		add(kase{ShellOK: true, Begin: []op{{Kind: "w", Name: n, Expr: nx()}, {Kind: "f", Name: n, Expr: nx()}, {Kind: "x", Name: n}, {Kind: "f", Name: n}}, Tag: "pair"})
+	}
 	// 2. operands: each alone and in pairs, read by the main loop, by plain getline, and named at run time
 	for _, a := range operandPool {
 		for _, nav := range []bool{false, true} {
@@ -1119,8 +1125,14 @@ func genCases(o hx.Opts, r *hx.Rand) []kase {
 				o.Kind, o.Name = "c", pick(cmdPool)
 			case 8:
 				o.Kind, o.Name = "s", pick(cmdPool)
-			case 9, 10:
+			case 9:
 				o.Kind, o.Name = "x", r.Pick(voc)
+			case 10:
+				if r.Bool() {
+					o.Kind, o.Name = "x", r.Pick(voc)
+				} else {
+					o.Kind, o.Name = "f", r.Pick(voc)
+				}
 			case 11, 12:
 				o.Kind = "G"
 			default:
@@ -1160,8 +1172,8 @@ func (k kase) spawns() int {
 }
 
 // quickSubset: the quick tier keeps every case that starts no process, the single-operation
-// process cases (all names without flags, one name under the other flag combinations / with a
-// failing shell) and every 16th of the remaining process-starting cases; the thorough tier runs them all.
+// process cases (four names without flags, one name under the other flag combinations / with a
+// failing shell) and every 40th of the remaining process-starting cases; the thorough tier runs them all.
 func quickSubset(ks []kase) []kase {
 	var out []kase
 	n := 0
@@ -1170,11 +1182,11 @@ func quickSubset(ks []kase) []kase {
 		if !keep && k.Tag == "single" {
 			nm := k.Begin[0].Name
 			plain := !k.NoFileWrites && !k.NoFileReads
-			keep = (plain && k.ShellOK) || (nm == "c1" && (plain || k.ShellOK))
+			keep = (plain && k.ShellOK && (nm == "out1" || nm == "-" || nm == "echo hi")) || (nm == "c1" && (plain || k.ShellOK))
 		}
 		if !keep {
 			n++
-			keep = n%16 == 0
+			keep = n%40 == 0
 		}
 		if keep {
 			out = append(out, k)
